@@ -93,9 +93,72 @@ impl<K1: Eq + Hash, K2: Eq + Hash, V> PartitionedCache<K1, K2, V> {
         &&& self.current_size == map_sum(self.partitions@, psize::<K2, V>())
     }
     // every stored tuple expires strictly after t
-    spec fn all_expire_after(&self, t: Instant) -> bool {
-        forall|k1: K1, k2: K2, i: int| #![trigger self.partitions@[k1].records@[k2]@[i]]
-            self.partitions@.contains_key(k1) && self.partitions@[k1].records@.contains_key(k2) && 0 <= i < self.partitions@[k1].records@[k2]@.len()
-            ==> inst(self.partitions@[k1].records@[k2]@[i].1) > inst(t)
+    spec fn all_expire_after(&self, t: Instant) -> bool { map_expires_after(self.partitions@, t) }
+}
+
+// the stored data (names, types, tuples, sizes, next expiries) is the same; only read times may differ
+spec fn same_records<K1: Eq + Hash, K2: Eq + Hash, V>(a: PartitionedCache<K1, K2, V>, b: PartitionedCache<K1, K2, V>) -> bool {
+    &&& a.current_size == b.current_size && a.desired_size == b.desired_size
+    &&& forall|k: K1| #[trigger] a.partitions@.contains_key(k) <==> b.partitions@.contains_key(k)
+    &&& forall|k: K1| #[trigger] a.partitions@.contains_key(k) ==> a.partitions@[k].records == b.partitions@[k].records
+            && a.partitions@[k].size == b.partitions@[k].size && a.partitions@[k].next_expiry == b.partitions@[k].next_expiry
+}
+
+// "no expired record is left": nothing is stored, or every stored tuple expires after some clock reading taken during the call
+spec fn map_expires_after<K1, K2: Eq + Hash, V>(m: Map<K1, Partition<K2, V>>, t: Instant) -> bool {
+    forall|k1: K1, k2: K2, i: int| #![trigger m[k1].records@[k2]@[i]]
+        m.contains_key(k1) && m[k1].records@.contains_key(k2) && 0 <= i < m[k1].records@[k2]@.len() ==> inst(m[k1].records@[k2]@[i].1) > inst(t)
+}
+spec fn clean_map<K1, K2: Eq + Hash, V>(m: Map<K1, Partition<K2, V>>) -> bool {
+    (forall|k: K1| !m.contains_key(k)) || exists|now: Instant| is_now(now) && #[trigger] map_expires_after(m, now)
+}
+spec fn clean<K1: Eq + Hash, K2: Eq + Hash, V>(c: PartitionedCache<K1, K2, V>) -> bool { clean_map(c.partitions@) }
+proof fn lemma_clean_remove<K1, K2: Eq + Hash, V>(m: Map<K1, Partition<K2, V>>, k: K1)
+    requires clean_map(m)
+    ensures clean_map(m.remove(k))
+{
+    if !(forall|k: K1| !m.contains_key(k)) {
+        let now = choose|now: Instant| is_now(now) && #[trigger] map_expires_after(m, now);
+        assert(map_expires_after(m.remove(k), now));
     }
 }
+// a cache holding at least one record has at least one name
+proof fn lemma_nonempty_if_positive<K1: Eq + Hash, K2: Eq + Hash, V>(c: PartitionedCache<K1, K2, V>)
+    requires c.wf(), c.current_size > 0
+    ensures exists|k: K1| c.partitions@.contains_key(k)
+{
+    if forall|k: K1| !c.partitions@.contains_key(k) {
+        assert(c.partitions@.dom() =~= Set::<K1>::empty());
+        assert(map_sum(c.partitions@, psize::<K2, V>()) == 0);
+    }
+}
+
+// ---- C05: what a lookup returns
+// whole seconds left at `now`, saturating at zero (and at u32::MAX)
+pub open spec fn ttl_left(e: Instant, now: Instant) -> u32 {
+    let d = if inst(e) >= inst(now) { inst(e) - inst(now) } else { 0 };
+    let s = d / 1_000_000_000;
+    if s > u32::MAX { u32::MAX } else { s as u32 }
+}
+pub open spec fn rr_of(name: DomainName, t: (RecordTypeWithData, Instant), now: Instant) -> ResourceRecord {
+    ResourceRecord { name, rtype_with_data: t.0, rclass: RecordClass::IN, ttl: ttl_left(t.1, now) }
+}
+// "the TTL reported for a cached record never exceeds the time it has left"
+pub proof fn lemma_ttl_never_exceeds_time_left(e: Instant, now: Instant)
+    ensures (ttl_left(e, now) as int) * 1_000_000_000 <= (if inst(e) >= inst(now) { inst(e) - inst(now) } else { 0 }), // [C05:ttl_never_exceeds_time_left]
+            ttl_left(e, now) == 0 <==> inst(e) - inst(now) < 1_000_000_000, // [C05:zero_ttl_iff_less_than_a_second_left]
+{}
+pub open spec fn any_cached(rrs: Seq<ResourceRecord>, recs: Map<RecordType, Vec<(RecordTypeWithData, Instant)>>, name: DomainName, now: Instant) -> bool {
+    &&& forall|t: RecordType, i: int| #![trigger recs[t]@[i]] recs.contains_key(t) && 0 <= i < recs[t]@.len() ==> rrs.contains(rr_of(name, recs[t]@[i], now))
+    &&& forall|x: int| 0 <= x < rrs.len() ==> exists|t: RecordType, i: int| recs.contains_key(t) && 0 <= i < recs[t]@.len() && #[trigger] rrs[x] == rr_of(name, #[trigger] recs[t]@[i], now)
+}
+spec fn lookup_result(rrs: Seq<ResourceRecord>, parts: Map<DomainName, Partition<RecordType, RecordTypeWithData>>, name: DomainName, qtype: QueryType, now: Instant) -> bool {
+    match qtype {
+        QueryType::Record(t) => rrs == (if parts.contains_key(name) && parts[name].records@.contains_key(t) {
+                Seq::new(parts[name].records@[t]@.len(), |i: int| rr_of(name, parts[name].records@[t]@[i], now)) } else { Seq::<ResourceRecord>::empty() }),
+        QueryType::Wildcard => if parts.contains_key(name) { any_cached(rrs, parts[name].records@, name, now) } else { rrs.len() == 0 },
+        _ => rrs.len() == 0,
+    }
+}
+pub broadcast axiom fn axiom_rtd_eq(a: RecordTypeWithData, b: RecordTypeWithData) ensures #[trigger] a.eq_spec(&b) == (a == b);
+pub broadcast axiom fn axiom_rtd_obeys() ensures #[trigger] <RecordTypeWithData as vstd::std_specs::cmp::PartialEqSpec>::obeys_eq_spec();
